@@ -29,17 +29,17 @@ def run(ctx):
         prog, info = load_program(cfg, "e57")
         ctx.configs[cfg] = info
         ctx.cfg = cfg
-        xml_rules.inverse_maps(ctx, prog, "R1", "R2", "R4")
-        xml_rules.blob_attrs(ctx, prog, "R1")
-        xml_rules.datetime_flag(ctx, prog, "R1")
-        xml_rules.record_name_tables(ctx, prog, "R1")
-        xml_rules.setters(ctx, prog, "R3")
-        pcw_rules.finalize_protocol(ctx, prog, "R3")
-        xml_rules.type_attributes(ctx, prog, "R4")
-        norm_rules.limit_parse_types(ctx, prog, "R4")
-        xml_rules.escaping_gate(ctx, prog, "R5")
-        xml_rules.raw_xml_identity(ctx, prog, "R6")
-        xml_rules.string_values_unchanged(ctx, prog, "R6")
-        xml_rules.read_values_unaltered(ctx, prog, "R1")
-        header_rules.publication_order(ctx, prog, "R6")
+        ctx.call(xml_rules.inverse_maps, prog, "R1", "R2", "R4")
+        ctx.call(xml_rules.blob_attrs, prog, "R1")
+        ctx.call(xml_rules.datetime_flag, prog, "R1")
+        ctx.call(xml_rules.record_name_tables, prog, "R1")
+        ctx.call(xml_rules.setters, prog, "R3")
+        ctx.call(pcw_rules.finalize_protocol, prog, "R3")
+        ctx.call(xml_rules.type_attributes, prog, "R4")
+        ctx.call(norm_rules.limit_parse_types, prog, "R4")
+        ctx.call(xml_rules.escaping_gate, prog, "R5")
+        ctx.call(xml_rules.raw_xml_identity, prog, "R6")
+        ctx.call(xml_rules.string_values_unchanged, prog, "R6")
+        ctx.call(xml_rules.read_values_unaltered, prog, "R1")
+        ctx.call(header_rules.publication_order, prog, "R6")
     ctx.cfg = None
